@@ -226,7 +226,8 @@ fn raw_op(lifecycle: bool) -> impl Strategy<Value = RawOp> {
     if lifecycle {
         prop_oneof![
             12 => p,
-            1 => (0usize..3, 1usize..4).prop_map(|(s, n)| RawOp::Skip(s, n)),
+            // mostly a few epochs; rarely a jump by (a multiple of) 2^32 epochs
+            1 => (0usize..3, prop_oneof![24 => 1usize..4, 1 => prop_oneof![Just(1usize << 32), Just((1usize << 32) + 1), Just(3usize << 32), Just((1usize << 32) - 1)]]).prop_map(|(s, n)| RawOp::Skip(s, n)),
             2 => Just(RawOp::Wasted),
             2 => (0usize..3).prop_map(RawOp::Idle),
             1 => Just(RawOp::ClearWasted),
@@ -248,7 +249,7 @@ fn raw_op(lifecycle: bool) -> impl Strategy<Value = RawOp> {
 pub fn vis_cfg() -> impl Strategy<Value = VisCfg> {
     (
         any::<bool>(),
-        (0.15f32..1.2, 0.6f32..0.995),
+        (0.15f32..1.2, prop_oneof![1 => 0.1f32..0.6, 2 => 0.6f32..0.995]),
         1usize..=3,
         1usize..=6,
         0usize..6,
